@@ -56,3 +56,20 @@ pub(crate) fn op_index(o: &Operation) -> usize {
 pub(crate) fn ref_index<T>(r: Ref<T>) -> usize {
     r.index
 }
+
+vharness! {
+    /// @prop C16 @tier quick @mode fast @funcs object::Store::clear,object::Store::len @bounds store holding [Alloc, Arc, Mutex, Channel] entries with symbolic fields; Vec::clear stubbed to skip element destructors
+    /// the object store handed to the next iteration is empty: no object (lock state, reference count, channel content, allocation record) of one iteration is visible in the next.
+    #[cfg_attr(kani, kani::unwind(8))]
+    #[cfg_attr(kani, kani::stub(std::vec::Vec::clear, crate::rt::verif::stubs::vec_clear_no_drop))]
+    fn object_store_clear_empties() {
+        let (mut st, leaked) = any_store();
+        assert!(st.len() == 4);
+        st.clear();
+        assert!(st.len() == 0);
+        // a leak scan of the cleared store reports nothing, whatever was in it
+        st.check_for_leaks();
+        kani::cover!(leaked, "the previous iteration left leaked objects behind");
+        std::mem::forget(st);
+    }
+}
